@@ -121,8 +121,9 @@ loop, and the deferred final write. -/
 def runStmts (fixed : Bool) (H : Text → String) (w : World) (m : MFile) (r : Revision) : World × Res :=
   if r.applied > m.stmts.length then (w, .panic)      -- stmts[r.Applied:] out of range
   else
-    -- second repair: `r.Total = len(stmts)` once the applied prefix is known to be unchanged
-    let r := if fixed then { r with total := m.stmts.length } else r
+    -- second repair: `r.Total = len(stmts)` and `r.Hash = hash` (the file's current hash) once the
+    -- applied prefix is known to be unchanged
+    let r := if fixed then { r with total := m.stmts.length, hash := m.hash } else r
     match stmtLoop (sums H m.stmts) (m.stmts.drop r.applied) w r with
     | (w, r, .ok) => deferred w { r with partialHashes := [] } .ok
     | (w, r, res) => deferred w r res
